@@ -81,7 +81,21 @@ def oracle_detrend(case):
 def df_case(draw, tier):
     return {"N": draw(st.integers(2, 300)), "order": draw(st.integers(0, 3)), "seed": draw(st.integers(0, 2 ** 31 - 1)),
             "cols": draw(st.sampled_from([None, ["a"], ["a", "c"], ["s", "a"], ["i"]])), "inplace": draw(st.booleans()),
-            "suffix": draw(st.sampled_from(["_detrended", "_dt"]))}
+            "suffix": draw(st.sampled_from(["_detrended", "_dt"])), "index": draw(st.sampled_from(["range", "range", "sliced", "datetime", "float"]))}
+
+
+def _reindex(df, kind):
+    """Row labels other than 0..N-1: a frame sliced out of a longer one keeps its labels; time-stamp / float indices."""
+    import pandas as pd
+    n = len(df)
+    if kind == "sliced":
+        big = pd.concat([df, df], ignore_index=True)
+        return big.iloc[n // 2: n // 2 + n].copy()
+    if kind == "datetime":
+        return df.set_index(pd.date_range("2020-01-01", periods=n, freq="s"))
+    if kind == "float":
+        return df.set_index(0.25 * np.arange(n) + 100.0)
+    return df
 
 
 def oracle_df(case):
@@ -91,6 +105,7 @@ def oracle_df(case):
     N = case["N"]
     df = pd.DataFrame({"a": rng.standard_normal(N) + 5, "i": rng.integers(-5, 5, N), "c": np.cumsum(rng.standard_normal(N)),
                        "s": ["x%d" % k for k in range(N)]})
+    df = _reindex(df, case.get("index", "range"))
     before = df.copy(deep=True)
     out = df_detrend(df, columns=case["cols"], order=case["order"], inplace=case["inplace"], suffix=case["suffix"])
     viol = []
@@ -102,7 +117,8 @@ def oracle_df(case):
         if col in sel and numeric:
             exp = polynomial_detrend(before[col].values, order=case["order"])
             name = col if case["inplace"] else col + case["suffix"]
-            if name not in out.columns or not np.allclose(np.asarray(out[name], float), exp, rtol=1e-12, atol=0):
+            if name not in out.columns or len(out) != len(before) or not out.index.equals(before.index) or \
+                    not np.allclose(np.asarray(out[name], float), exp, rtol=1e-12, atol=0):
                 viol.append(V("df_column_ne_polynomial_detrend", col=col, inplace=case["inplace"]))
             if not case["inplace"] and not out[col].equals(before[col]):
                 viol.append(V("df_original_column_changed", col=col))
